@@ -639,6 +639,12 @@ def oracles(lines):
                     if prev is not None and ts < prev[1]:
                         viol.append(("C05", "sink %d: id=%d (ts=%d) written after id=%d (ts=%d)" % (s, i, ts, prev[0], prev[1])))
                     prev = (i, ts)
+    # ---- C09 end to end: nobody is left blocked once the backend has drained everything ---------------------------------
+    if not dropping and q_snaps and len(rec["ops"]) - q_snaps[-1][0] <= 6:
+        for a, i in pending_by_actor.items():
+            st = stmts.get(i)
+            if st is not None and st["ret"] is None and not st.get("skipped"):
+                viol.append(("C09", "log call id=%d of actor %d is still blocked after the final drain (14 rounds of time passing, polls and retries): the backend is idle with empty queues" % (i, a)))
     # ---- C20: retained contexts after the drain -------------------------------------------------------------------
     if q_snaps and not removed_loggers:
         k, res, live_then, exited_then, parked_then = q_snaps[-1]
